@@ -46,7 +46,7 @@ def _leaf_attrs(r, swarm):
     if swarm['updaters']:
         kinds += ['null', 'nonneg', 'nonneg', 'merge', 'merge', 'dict_value', 'affine', 'acc_nd', 'nonneg_nd']
     if swarm.get('units'):
-        kinds += ['qty'] * 4
+        kinds += ['qty'] * 4 + ['ser_int'] * 2
     kind = r.pick(kinds)
     a = {'kind': kind, 'emit': r.chance(70)}
     if kind == 'acc_int':
@@ -57,6 +57,9 @@ def _leaf_attrs(r, swarm):
         a.update(updater='accumulate', default=[r.rint(0, 9)])
     elif kind == 'acc_nd':
         a.update(updater='accumulate', default={'__nd__': [r.rint(0, 9), r.rint(0, 9)]})
+    elif kind == 'ser_int':
+        # a variable with a custom serializer: rows show what the serializer makes of the value
+        a.update(updater=None, default=r.rint(0, 50), serializer='verif_ser_tag')
     elif kind == 'nonneg_nd':
         a.update(updater='nonnegative_accumulate', default={'__nd__': [r.rint(0, 9), r.rint(0, 9)]})
     elif kind == 'qty':
@@ -86,6 +89,8 @@ def _leaf_schema(a):
         s['_updater'] = a['updater']
     if a.get('units'):
         s['_units'] = a['units']
+    if a.get('serializer'):
+        s['_serializer'] = a['serializer']
     return s
 
 
@@ -94,7 +99,9 @@ def _vals_for(r, a, pname, swarm):
     n = r.rint(1, 5)
     out = []
     for i in range(n):
-        if kind == 'acc_int':
+        if kind == 'ser_int':
+            v = r.rint(-20, 60)
+        elif kind == 'acc_int':
             v = r.rint(-20, 60)
             if swarm['override'] and r.chance(25):
                 m = r.below(4)
@@ -422,6 +429,13 @@ def register_updaters():
         serializer_registry.register('verif_ser_a', SerA())
         serializer_registry.register('verif_ser_b', SerB())
 
+        class SerTag(Serializer):
+            python_type = int
+
+            def serialize(self, data):
+                return 'tag:%r' % (data,)
+        serializer_registry.register('verif_ser_tag', SerTag())
+
 
 def build(case, perm=None):
     from dst.parties import WProc
@@ -526,7 +540,8 @@ def build_model(case):
                 m.attr[e.abs] = {'default': e.schema.get('_default'),
                                  'updater': e.schema.get('_updater'),
                                  'emit': e.schema.get('_emit', False),
-                                 'units': e.schema.get('_units')}
+                                 'units': e.schema.get('_units'),
+                                 'serializer': e.schema.get('_serializer')}
             else:
                 globs_declared.setdefault(e.base, []).append(e)
         m.markers[tuple(spec['path'])] = ('<P>', spec['name'])
@@ -546,7 +561,8 @@ def build_model(case):
                     m.attr[ce.abs] = {'default': ce.schema.get('_default'),
                                       'updater': ce.schema.get('_updater'),
                                       'emit': ce.schema.get('_emit', False),
-                                      'units': ce.schema.get('_units')}
+                                      'units': ce.schema.get('_units'),
+                                      'serializer': ce.schema.get('_serializer')}
                     m.val[ce.abs] = _dec(ce.schema.get('_default'))
     return m, decl, globs_declared
 
@@ -805,7 +821,10 @@ def check(case, run, stats=None):
             got = {p_: v for p_, v in got.items() if not _empty(v)}
             exp = {p_: m.val[p_] for p_ in m.val if (m.attr.get(p_) or {}).get('emit')}
             def eq_(p_):
-                return _emit_equal(got[p_], exp[p_], (m.attr.get(p_) or {}).get('units'))
+                at = m.attr.get(p_) or {}
+                if at.get('serializer') == 'verif_ser_tag':
+                    return got[p_] == 'tag:%r' % (exp[p_],)
+                return _emit_equal(got[p_], exp[p_], at.get('units'))
             if set(got) != set(exp) or any(not eq_(p_) for p_ in exp):
                 extra = sorted(set(got) - set(exp))
                 missing = sorted(set(exp) - set(got))
